@@ -61,6 +61,10 @@ type FuncContract struct {
 	Asserts   map[string][]*Clause
 	CallSpecs []*CallSpec
 	Used      bool
+	NoCalls   bool
+	SQLTexts  []string
+	Allow     []string
+	SchemaOf  string
 }
 
 type SpecFn struct {
@@ -88,10 +92,27 @@ type Lemma struct {
 }
 
 type Axiom struct {
-	PkgPath string
-	Name   string
-	Params []SpecParam
-	Body   *Clause
+	Triggers []ast.Expr
+	PkgPath  string
+	Name     string
+	Params   []SpecParam
+	Body     *Clause
+}
+
+// Schema: an obligation schema instantiated over a set of functions enumerated from go/types on every run.
+type Schema struct {
+	Kind     string // "exported-methods"
+	Type     string // receiver type, e.g. *BridgeSync
+	PkgPath  string
+	Props    []string
+	Except   []string
+	Requires []*Clause
+	Allow    []string // callees that may be reached (executed in place); every other non-opaque call must be unreachable
+	NoCalls  bool
+	ErrExpr  string
+	Zero     bool
+	File     string
+	Line     int
 }
 
 type GhostField struct {
@@ -102,21 +123,22 @@ type GhostField struct {
 
 type GhostVar struct {
 	PkgPath string
-	Name string
-	Type string
+	Name    string
+	Type    string
 }
 
 type ContractSet struct {
-	Funcs   map[string]*FuncContract // pkgpath + "." + key
-	Ifaces  map[string]*FuncContract // pkgpath.Iface.Method
-	Externs map[string]*FuncContract // ssa fn.String()
-	Specs   map[string]*SpecFn
-	Lemmas  []*Lemma
-	Axioms  []*Axiom
-	Ghosts  map[string]*GhostVar
+	Funcs       map[string]*FuncContract // pkgpath + "." + key
+	Ifaces      map[string]*FuncContract // pkgpath.Iface.Method
+	Externs     map[string]*FuncContract // ssa fn.String()
+	Specs       map[string]*SpecFn
+	Lemmas      []*Lemma
+	Axioms      []*Axiom
+	Ghosts      map[string]*GhostVar
 	GhostFields map[string]*GhostField
-	OpaquePats []string
-	Errors  []string
+	Schemas     []*Schema
+	OpaquePats  []string
+	Errors      []string
 }
 
 func NewContractSet() *ContractSet {
@@ -176,12 +198,12 @@ func parseParams(s string) []SpecParam {
 	return out
 }
 
-var clauseKw = map[string]bool{"requires": true, "ensures": true, "modifies": true, "loop": true, "inline": true,
+var clauseKw = map[string]bool{"sqltext": true, "except": true, "allowcalls": true, "nocalls": true, "ensureserror": true, "ensureszero": true, "requires": true, "ensures": true, "modifies": true, "loop": true, "inline": true,
 	"trusted": true, "pure": true, "opaque": true, "nonnil": true, "props": true, "maypanic": true, "params": true,
 	"assert": true, "call": true}
 
 var blockKw = map[string]bool{"func": true, "spec": true, "lemma": true, "axiom": true, "ghost": true,
-	"interface": true, "extern": true, "opaquepat": true, "package": true}
+	"interface": true, "extern": true, "opaquepat": true, "package": true, "schema": true}
 
 func firstWord(s string) (string, string) {
 	s = strings.TrimSpace(s)
@@ -256,6 +278,7 @@ func (cs *ContractSet) ParseFile(path, pkgPath string) error {
 		}
 	}
 	var cur *FuncContract
+	var curSchema *Schema
 	var curLemma *Lemma
 	var curProps []string
 	mkClause := func(it item, props []string) *Clause {
@@ -274,7 +297,38 @@ func (cs *ContractSet) ParseFile(path, pkgPath string) error {
 		return &Clause{Label: label, Text: txt, Expr: e, File: path, Line: it.n, Props: props}
 	}
 	for _, it := range items {
+		if it.kw == "func" || it.kw == "extern" || it.kw == "interface" || it.kw == "spec" || it.kw == "ghost" || it.kw == "lemma" || it.kw == "axiom" || it.kw == "package" {
+			curSchema = nil
+		}
+		if curSchema != nil {
+			switch it.kw {
+			case "props":
+				curSchema.Props = strings.Fields(it.rest)
+			case "except":
+				curSchema.Except = append(curSchema.Except, strings.Fields(it.rest)...)
+			case "allowcalls":
+				curSchema.Allow = append(curSchema.Allow, strings.Fields(it.rest)...)
+			case "nocalls":
+				curSchema.NoCalls = true
+			case "ensureserror":
+				curSchema.ErrExpr = it.rest
+			case "ensureszero":
+				curSchema.Zero = true
+			case "requires":
+				if cl := mkClause(it, curSchema.Props); cl != nil {
+					curSchema.Requires = append(curSchema.Requires, cl)
+				}
+			}
+			continue
+		}
 		switch it.kw {
+		case "schema":
+			cur, curLemma = nil, nil
+			f := strings.Fields(it.rest)
+			if len(f) >= 2 {
+				curSchema = &Schema{Kind: f[0], Type: f[1], PkgPath: pkgPath, File: path, Line: it.n}
+				cs.Schemas = append(cs.Schemas, curSchema)
+			}
 		case "package":
 			pkgPath = it.rest
 			cur, curLemma = nil, nil
@@ -379,9 +433,20 @@ func (cs *ContractSet) ParseFile(path, pkgPath string) error {
 				curLemma = nil
 				tail := strings.TrimSpace(rest[j+1:])
 				tail = strings.TrimPrefix(tail, ":")
+				var trig []ast.Expr
+				if k := strings.Index(tail, "@trigger"); k >= 0 {
+					for _, ts := range splitTop(tail[k+len("@trigger"):]) {
+						if te, err := parseSpecExpr(strings.TrimSpace(ts)); err == nil {
+							trig = append(trig, te)
+						} else {
+							cs.Errors = append(cs.Errors, fmt.Sprintf("%s:%d: %v", path, it.n, err))
+						}
+					}
+					tail = tail[:k]
+				}
 				cl := mkClause(item{it.n, "", strings.TrimSpace(tail)}, nil)
 				if cl != nil {
-					cs.Axioms = append(cs.Axioms, &Axiom{PkgPath: pkgPath, Name: name, Params: params, Body: cl})
+					cs.Axioms = append(cs.Axioms, &Axiom{PkgPath: pkgPath, Name: name, Params: params, Body: cl, Triggers: trig})
 				}
 			}
 		case "opaquepat":
@@ -495,6 +560,14 @@ func (cs *ContractSet) ParseFile(path, pkgPath string) error {
 			cl := mkClause(item{it.n, "", strings.TrimSpace(strings.TrimPrefix(it.rest, f[0]))}, curProps)
 			if cl != nil {
 				cur.Asserts[f[0]] = append(cur.Asserts[f[0]], cl)
+			}
+		case "sqltext":
+			if cur != nil {
+				t := strings.TrimSpace(it.rest)
+				if u, err := strconv.Unquote(t); err == nil {
+					t = u
+				}
+				cur.SQLTexts = append(cur.SQLTexts, t)
 			}
 		case "inline":
 			if cur != nil {
